@@ -88,6 +88,11 @@ func Bubble(t *testing.T, f func()) (pv any, stack string) {
 				pv = r
 				stack = string(debug.Stack())
 			}
+			// panics recovered in instrumented dependency goroutines (go-statemachine planner / entry functions)
+			if ps := core.TakePanics(); len(ps) > 0 && pv == nil {
+				pv = "panic in a library goroutine"
+				stack = ps[0]
+			}
 		}()
 		f()
 	})
